@@ -360,7 +360,7 @@ def rule_r6(ctx, rep):
             rep.add("R6", q, "unregisters nodes", f"{f.name} unregisters nodes although it is not one of the operations documented to discard them "
                     f"(delete by id, replace with deletion, prune, expand): a node that is merely detached -- and may be re-attached -- "
                     f"disappears from the registry while it is still in a tree", f.loc())
-    rep.floor("functions that may unregister nodes", 4)
+    rep.floor("functions that may unregister nodes", 3)
 
 
 def rule_r5(ctx, rep):
@@ -381,18 +381,27 @@ def rule_r5(ctx, rep):
                 and n.func.value.attr == nm.registry:
             dels.append((n, None))
     rep.count("registry deletions in delete_node_instance", len(dels))
-    ok = len(dels) == 1 and dels[0][1] is not None and isinstance(dels[0][1].slice, ast.Name) and dels[0][1].slice.id == idp
+    ok = bool(dels) and all(t is not None and isinstance(t.slice, ast.Name) and t.slice.id == idp for (_n, t) in dels)
     rep.oblige(("R5", "exact-key"), ok)
     if not ok:
         rep.add("R5", fi.qname, dels[0][0] if dels else "del Node.store[id]", "delete_node_instance must delete exactly the key it was given, once", fi.loc())
     else:
+        from ..marks import may_at
         dom = MarkDomain()
-        dom.mark(dels[0][0], "DEL")
+        for (d_, _t) in dels:
+            dom.mark(d_, "DEL")
+            dom.probe(d_)
         flow, exits = run_marks(ctx, fi, dom)
         ok2 = bool(exits) and all("DEL" in must for (must, _m) in exits)
         rep.oblige(("R5", "all-paths"), ok2)
         if not ok2:
             rep.add("R5", fi.qname, dels[0][0], "some path through delete_node_instance does not remove the node it was asked to remove", fi.loc(dels[0][0]))
+        for (d_, _t) in dels:
+            twice = "DEL" in (may_at(dom, d_) or frozenset())
+            rep.oblige(("R5", "once", getattr(d_, "lineno", 0)), not twice)
+            if twice:
+                rep.add("R5", fi.qname, d_, "the key is deleted a second time on some path (KeyError): delete_node_instance must delete exactly the key it was "
+                        "given, once", fi.loc(d_))
     # recursion: only over the children of the node registered under id, guarded by the children flag
     recs = [n for n in ast.walk(fi.node) if isinstance(n, ast.Call) and _resolves_to(ctx, fi, n, fi.qname)]
     rep.count("recursive unregistrations", len(recs))
@@ -466,7 +475,7 @@ def rule_r7(ctx, rep):
             if not handed:
                 rep.add("R7", fi.qname, a, f"`{x}` is created (and thereby registered) here but is neither returned, attached, stored, passed on nor "
                         f"unregistered: it stays in the registry although no tree contains it", fi.loc(a))
-    rep.floor("nodes created into a local", 4)
+    rep.floor("nodes created into a local", 2)
 
 
 def run(ctx, rep):
